@@ -15,4 +15,5 @@ else
 fi
 ./check $P 2>&1 | grep -E "^(OK|VIOLATION|KNOWN)" | head -3
 git -C /repo checkout HEAD -- .
+(cd /verif/tools/gen && go run . -repo /repo -out /verif/coq/Gen)
 git -C /repo status --short
